@@ -915,7 +915,7 @@ def gen_linalg(rng, cx=False):
                 for argnum in (0, 1):
                     yield case("solve", [well_cond(rng, shp, cx), A(rng, bs, "any", cx)], ns="linalg", argnum=argnum)
             yield case("cholesky", [spd(rng, shp, cx)], ns="linalg", domain="herm")
-            for uplo in ("__default__", "L", "U"):
+            for uplo in ("__default__", "L", "U", "l", "u"):
                 kw = {} if uplo == "__default__" else {"UPLO": uplo}
                 yield case("eigh", [sym_sep(rng, shp, cx)], kw, ns="linalg", outsel=[0], tags=["values"])
                 yield case("eigh", [sym_sep(rng, shp, cx)], kw, ns="linalg", tags=["values+vectors"], gauge="eigvec")
